@@ -38,6 +38,12 @@ def cells(tier, seed):
             out.append({"kind": "ops", "D": D, "shape": shape, "lead": lead})
     for layer in ["conv", "vn", "maxpool", "gnorm_scalar", "convblock", "resnet"]:
         out.append({"kind": "vmap", "layer": layer, "D": 2, "batch": 2 if tier == "quick" else 3})
+    # losses: one sample can never influence another's loss
+    for order in ([0, 1], [1, 0]):
+        for steps in (1, 2):
+            out.append({"kind": "loss", "D": 2, "batch": 3, "order": order, "steps": steps})
+    if tier == "thorough":
+        out.append({"kind": "loss", "D": 3, "batch": 2, "order": [1, 0], "steps": 2})
     return out
 
 
@@ -48,8 +54,61 @@ def exhaustive(tier):
 def run_cell(cfg, cx):
     if cfg["kind"] == "ops":
         _ops(cfg, cx)
+    elif cfg["kind"] == "loss":
+        _loss(cfg, cx)
     else:
         _vmap(cfg, cx)
+
+
+def _loss(cfg, cx):
+    """Per-entry losses equal the loss of that entry evaluated alone (a batch of one), and the batch-reduced losses are the mean
+    of those: entry j never enters the loss of entry i."""
+    import jax.numpy as jnp
+    import ginjax.geometric as geom
+    import ginjax.ml as ml
+    from fractions import Fraction
+    from jxsmt import sym as S, interp as I
+    D, B, steps = cfg["D"], cfg["batch"], cfg["steps"]
+    N = 2
+    types = [((0, 0), 2 * steps), ((1, 0), steps)]
+    types = [types[i] for i in cfg["order"]]
+    X = {kp: S.var_array(f"x{kp[0]}{kp[1]}", (B, c) + (N,) * D + (D,) * kp[0]) for kp, c in types}
+    Y = {kp: S.var_array(f"y{kp[0]}{kp[1]}", (B, c) + (N,) * D + (D,) * kp[0]) for kp, c in types}
+    mk = lambda bl: geom.MultiImage({kp: bl[kp] for kp, _ in types}, D, True)
+    one = lambda bl, i: geom.MultiImage({kp: bl[kp][i:i + 1] for kp, _ in types}, D, True)
+    ckey = f"D={D}:batch={B}:order={cfg['order']}:steps={steps}"
+    fns = {
+        "smse_loss(reduce=None)": (lambda x, y: ml.smse_loss(mk(x), mk(y), reduce=None), lambda x, y, i: ml.smse_loss(one(x, i), one(y, i), reduce=None)[0], "entry"),
+        "timestep_smse_loss(reduce=None)": (lambda x, y: ml.timestep_smse_loss(mk(x), mk(y), steps, reduce=None),
+                                            lambda x, y, i: ml.timestep_smse_loss(one(x, i), one(y, i), steps, reduce=None)[0], "entry"),
+        "smse_loss(mean)": (lambda x, y: ml.smse_loss(mk(x), mk(y)), lambda x, y, i: ml.smse_loss(one(x, i), one(y, i)), "mean"),
+        "timestep_smse_loss(mean)": (lambda x, y: ml.timestep_smse_loss(mk(x), mk(y), steps), lambda x, y, i: ml.timestep_smse_loss(one(x, i), one(y, i), steps), "mean"),
+        "normalized_smse_loss": (lambda x, y: ml.normalized_smse_loss(mk(x), mk(y)), lambda x, y, i: ml.normalized_smse_loss(one(x, i), one(y, i)), "mean"),
+    }
+    for nm, (full, single, how) in fns.items():
+        got = I.sym_call(full, X, Y)
+        singles = [I.sym_call(lambda x, y, i=i: single(x, y, i), X, Y) for i in range(B)]
+        flat = lambda s_: np.asarray(s_.a, dtype=object).reshape(-1)
+        if how == "entry":
+            ref = np.stack([flat(s_) for s_ in singles], axis=0)
+            got = np.asarray(got.a, dtype=object).reshape(B, -1)
+        else:
+            ref = flat(singles[0])
+            for s_ in singles[1:]:
+                ref = ref + flat(s_)
+            ref = ref * Fraction(1, B)
+            got = flat(got)
+        def replay(vals, bvals, full=full, single=single, how=how):
+            x = {kp: jnp.asarray(cx.conc(v, vals)) for kp, v in X.items()}
+            y = {kp: jnp.asarray(cx.conc(v, vals)) for kp, v in Y.items()}
+            g = np.asarray(full(x, y))
+            ss = [np.asarray(single(x, y, i)).reshape(-1) for i in range(B)]
+            r = np.stack(ss, axis=0) if how == "entry" else sum(ss) / B
+            return cx.deviates(g.reshape(r.shape), r)
+        cx.equal(f"{nm}: entry i = loss of entry i alone" if how == "entry" else f"{nm} = mean of the single-entry losses", got, ref,
+                 replay=replay, key=f"loss:{nm}:{ckey}")
+    got = I.sym_call(fns["smse_loss(reduce=None)"][0], X, Y)
+    cx.canary("canary[per-entry losses reversed]", got, np.asarray(got.a, dtype=object)[::-1].copy())
 
 
 def _ops(cfg, cx):
